@@ -205,6 +205,34 @@ def coq_cert_expr(case, n, d, tol):
             f"{c10.qfr(Fr(d) - tol)}")
 
 
+def variants(case):
+    """perturbations of an input on which model and implementation disagree (targeted search): segments are shrunk
+    about either end, reversed and slid along their direction; points / centres are nudged towards the other primitive"""
+    out = []
+    def seg_variants(p):
+        s, e = p["s"], p["e"]
+        d = [e[i] - s[i] for i in range(3)]
+        vs = [dict(p, s=list(e), e=list(s))]
+        for f in (0.1, 0.25, 0.5, 0.75):
+            vs.append(dict(p, e=[s[i] + f * d[i] for i in range(3)]))
+            vs.append(dict(p, s=[e[i] - f * d[i] for i in range(3)]))
+        for f in (-1.0, -0.5, 0.5, 1.0):
+            vs.append(dict(p, s=[s[i] + f * d[i] for i in range(3)], e=[e[i] + f * d[i] for i in range(3)]))
+        return vs
+    for key in ("A", "B"):
+        p = case[key]
+        if p["kind"] == "line_segment":
+            for v in seg_variants(p):
+                c2 = dict(case, stream="search")
+                c2[key] = v
+                out.append(c2)
+    ca, cb = pl.centre(case["A"]), pl.centre(case["B"])
+    for f in (0.25, 0.5, -0.5):
+        t = [f * (cb[i] - ca[i]) for i in range(3)]
+        out.append(dict(case, A=pl.translate(case["A"], t), stream="search"))
+    return [c for c in out if pl.in_domain(c["A"], c["B"])]
+
+
 def run(tier, seed, replay=None):
     from . import c10corr
     R = cm.Run(PID, "proof", tier, seed)
@@ -335,6 +363,8 @@ def run(tier, seed, replay=None):
         sus = sorted({c["fn"] for c in getattr(R, "mismatch_cases", [])}) or sorted(
             {fn for fn, st in per_fn.items() if st.get("undecided") and "circle" not in fn})
         extra = []
+        for c in getattr(R, "mismatch_cases", [])[:25]:
+            extra += variants(c)
         for fn in sus[:6]:
             ka, kb = pl.kinds_of(fn)
             uniq = list(dict.fromkeys(pl.stream_mix(ka, kb)))
